@@ -324,6 +324,63 @@ def rule_accumulate(chk, prog):
   chk.at_least(rule, 6)
 
 
+def rule_dfi_weights(chk, prog, rule='C14.6-dfi', count_rule=None):
+  """The Lanczos weights of Lynch & Huang (1992): h_n ∝ sinc(n/(N+1)) · sinc(n·θc/π) with θc = 2π·dt/τc and span = 2N·dt, i.e. the
+  low-pass argument is n·span/(τc·N); N is the *rounded* number of steps on each side (a truncated quotient changes with rounding
+  noise in span/dt, e.g. when the same physical times are expressed in another scale)."""
+  f = prog.func(f'{TI}._dfi_lanczos_weights')
+  site, loc = f'{TI}._dfi_lanczos_weights', (f.file, f.lineno)
+  ev = sym.Evaluator(prog)
+  v, ctx, env = ev.run(f)
+  span, tau, dt = sym_('time_span'), sym_('cutoff_period'), sym_('dt')
+  rounding = {'round', 'rint', 'around'}
+  trunc = {'int', 'floor', 'ceil', 'trunc', 'fix'}
+  short = lambda z: z.a[0].a[0].rsplit('.', 1)[-1] if z.k == 'call' and z.a[0].k == 'ext' else None
+  def count_terms(t):
+    out, inner_of = [], set()
+    for z in sym.walk(t):
+      if short(z) in rounding | trunc and z.a[1] and sym.contains(z.a[1][0], lambda q: q == dt):
+        if short(z) in trunc and short(z.a[1][0]) in rounding:
+          inner_of.add(z.a[1][0])   # integer conversion of an already rounded value: the pair is one rounded count
+        out.append(z)
+      elif z.k == 'bin' and z.a[0] == '//' and sym.contains(z, lambda q: q == dt):
+        out.append(z)
+      elif z.k == 'call' and z.a[0].k == 'attr' and z.a[0].a[1] == 'astype' and sym.contains(z.a[0].a[0], lambda q: q == dt):
+        out.append(z)
+    return [z for z in dict.fromkeys(out) if z not in inner_of]
+  cts = count_terms(v)
+  chk.require(bool(cts), f'{site}: the number of steps is no longer derived from time_span and dt by a recognisable conversion')
+  A0 = alg.Algebra(ev)
+  for c in cts:
+    r_ = c.a[1][0] if short(c) in trunc and short(c.a[1][0]) in rounding else c
+    okc = short(r_) in rounding and alg.equal(A0.conv(r_.a[1][0]), A0.conv(span) / (2 * A0.conv(dt)))
+    chk.check(okc, count_rule or rule, f'{site}: N = round(time_span / (2·dt)) — the quotient of two model times is rounded to the nearest count, not truncated',
+              sym.show(c)[:120], c.loc or loc, 'round(time_span / (2 * dt))', sym.show(c)[:120])
+  if count_rule is not None:
+    return
+  N = cts[0]
+  sincs = list(dict.fromkeys(t for t in sym.walk(v) if t.k == 'call' and t.a[0].k == 'ext' and t.a[0].a[0].rsplit('.', 1)[-1] == 'sinc'))
+  A = alg.Algebra(ev, opaque=lambda t: t in sincs or t == N or (t.k == 'call' and t.a[0].k == 'ext' and t.a[0].a[0].rsplit('.', 1)[-1] == 'arange'))
+  e = A.conv(v)
+  prod = 1
+  for s_ in sincs:
+    prod = prod * A.atom(s_)
+  if not chk.check(len(sincs) == 2 and alg.equal(e, prod), rule, f'{site}: weights = (Lanczos window) · (ideal low-pass response), a product of two sinc factors', sym.show(v)[:200], loc):
+    return
+  ar = [t for t in sym.walk(v) if t.k == 'call' and t.a[0].k == 'ext' and t.a[0].a[0].rsplit('.', 1)[-1] == 'arange']
+  okn = bool(ar) and all(list(t.a[1])[0] == sym.const(1) and alg.equal(A.conv(list(t.a[1])[1]), A.atom(N) + 1) for t in ar) and len(set(ar)) == 1
+  chk.check(okn, rule, f'{site}: n runs over 1 … N (time 0 carries the separate unit weight)', sym.show(ar[0])[:100] if ar else 'no arange', loc, 'arange(1, N + 1)', sym.show(ar[0])[:100] if ar else '')
+  if not okn:
+    return
+  n = A.atom(ar[0])
+  Ns, T, tc = A.atom(N), A.conv(span), A.conv(tau)
+  args = [sp.simplify(A.conv(s_.a[1][0])) for s_ in sincs]
+  want = [sp.simplify(n / (Ns + 1)), sp.simplify(n * T / (tc * Ns))]
+  match_ = (alg.equal(args[0], want[0]) and alg.equal(args[1], want[1])) or (alg.equal(args[0], want[1]) and alg.equal(args[1], want[0]))
+  chk.check(match_, rule, f'{site}: sinc arguments are n/(N+1) (window) and n·time_span/(cutoff_period·N) = n·θc/π (low-pass with cutoff period τc)', str(args), loc,
+            str(want), str(args))
+
+
 def rule_dfi(chk, prog):
   rule = 'C14.6-dfi'
   site = f'{TI}.digital_filter_initialization'
@@ -421,6 +478,7 @@ def run(chk, prog, tier):
   rule_nested_scan(chk, prog)
   rule_accumulate(chk, prog)
   rule_dfi(chk, prog)
+  rule_dfi_weights(chk, prog)
   rule_time_reversed(chk, prog)
   chk.assume('lax.scan(f, init, xs, length) threads the carry through f `length` times and stacks the second outputs',
              'jax.tree_util.tree_map applies its function leaf-wise; jax.checkpoint does not change values',
